@@ -25,7 +25,7 @@ func init() {
 			"Non-trivial: some inner reference branch has 0 < FBP < 1 and FBP < TBE < 1; distinct = distinct (reference text, bootstrap texts)",
 		Gen: func(rt *rapid.T, tier string) any {
 			pc := genPipe(rt, tier, pipeGenOpts{algos: []string{"fbp", "tbe"}, faults: true, faultKinds: []string{"foreign", "missing", "extra"},
-				minTax: 4, maxTax: 16, maxTrees: 10, rootedRef: true, rootedRecs: true})
+				minTax: 4, maxTax: 16, maxTrees: 13, rootedRef: true, rootedRecs: true, maxFaults: 3})
 			pc.Recs2 = genRecs2(rt, pc.Recs, true)
 			return pc
 		},
